@@ -400,6 +400,34 @@ pub fn record(output: &str) {
                 }
             }
         }
+        // two planners at work at the same time (classes that need no random planning): the stroke is planned three times
+        // in a row in this cell while, on another thread, the same stroke is planned with a ten times finer check step in
+        // a second cell of the same kind - each plan succeeds as it does alone, whatever the other one is doing
+        // (only the outcomes are recorded: they join the outcomes of the group)
+        if matches!(obstacle_class, "free" | "turning" | "repeated-poses") {
+            TWO_STEP.store((nth + k % 14) % 2 == 1, std::sync::atomic::Ordering::Relaxed);
+            let cell2 = cell_full(obstacle, if v % 4 == 3 { 10_000 } else { 0 }, j6_limit, false, 0, narrow_limits);
+            TWO_STEP.store(false, std::sync::atomic::Ordering::Relaxed);
+            let plan_in = |c: &Cell, step_m: f64, times: usize| -> Vec<bool> {
+                let planner = Cartesian { robot: &c.kws, check_step_m: step_m, check_step_rad: 3.0f64.to_radians(), max_transition_cost: max_cost, transition_coefficients: coeffs,
+                    linear_recursion_depth: 8, rrt: RRTPlanner { step_size_joint_space: 3.0f64.to_radians(), max_try: 1000, debug: false }, include_linear_interpolation: include, debug: false };
+                (0..times).map(|_| matches!(guarded(|| planner.plan(&start, &land, steps.clone(), &park)), Some(Ok(_)))).collect()
+            };
+            let (ra, rb) = std::thread::scope(|sc| {
+                let ha = sc.spawn(|| plan_in(&cell, 0.05, 3));
+                let hb = sc.spawn(|| plan_in(&cell2, 0.005, 1));
+                (ha.join().unwrap_or(vec![false]), hb.join().unwrap_or(vec![false]))
+            });
+            let _ = verif_hooks::drain();
+            for (which, ok) in ra.iter().map(|o| ("first", o)).chain(rb.iter().map(|o| ("second", o))) {
+                outcomes.push(*ok);
+                if !*ok {
+                    out.put(json!({"ev": "plan", "case": k, "pool": 0, "rep": 90, "second": false, "concurrent": which, "obstacle": obstacle_class, "include": include, "nsteps": nsteps,
+                        "windows": {"direct": 0, "bisect": 0, "rrt": 0}, "max_cost_au": rad2au(max_cost), "table": table_json, "def_env": cell.def_env_um, "def_robot": 0, "nenv": nenv,
+                        "outcome": "err", "msg": "planned while another planner was at work"}));
+                }
+            }
+        }
         // (the detour class needs the randomised planner already for the way to the landing pose)
         out.put(json!({"ev": "group", "case": k, "obstacle": obstacle_class, "outcomes": outcomes, "needs_rrt": any_rrt || obstacle_class == "detour-onboarding"}));
     }
